@@ -23,6 +23,7 @@ package redisemu
 
 //@ func setBitfield
 //@ prop C18 C13
+//@ writes bytes
 //@ fresh sq in 0..(1<<40) witness start/8
 //@ fresh sb in 0..7 split witness start%8
 //@ fresh wd in 1..64 split witness width
